@@ -20,7 +20,13 @@ buffer; C06 G1 / G2 decide it) sits behind it.  With the gssapi feature the code
            `len(buf) < N` passes for N <= 2 (dead code: the frame decoder says Ok(None) there anyway) and holds a complete
            element back for every N > 2 - for ever if the peer sends nothing more: it is neither delivered nor rejected.
     Anything else - an error of the wrapper's own, an answer after the decoder's was dropped, a path that goes on into the
-    token layer - is a violation.
+    token layer - is a violation.  In particular `Ok(None)` on a path on which the frame decoder *delivered* a message (the
+    decoder's answer passed through `.filter(pred)`, a `match` with a guard): the frame is complete and consumed, and Framed
+    reads the socket before it decodes again - reported as such.  A test of the delivered message ID is decided under what the
+    envelope rules establish about every delivered ID (`id_range`: 0 .. maxInt), so `filter(|&(id, _)| id >= 0)` is the
+    decoder's answer (P1) and `id != 0` is not: what is judged is the composition of wrapper and body, in whichever of the two
+    functions the adaptor sits (an adaptor inside the frame decoder's own function - also a new function around the renamed
+    body, which the fact loader expands - is read by C06 G1 / G2 and the envelope trees on that function's paths).
 
 The constructed state is read off the one struct literal that builds the codec: a field initialised to a literal is that
 literal; `Arc::new(RwLock::new(v))` / `Arc::new(Mutex::new(v))` (also through `clone()` of a local bound to it) is a cell that
